@@ -137,6 +137,18 @@ fn trees(thorough: bool) -> Vec<Tree> {
                         d.args = level_args(&format!("d{}", ci), b'q');
                         c.subs.push(d);
                     }
+                    if k <= 1 {
+                        // the first two children each declare a *global* option with the same id and
+                        // long name but different possible values (written into their own children
+                        // too, which is what propagation gives)
+                        let mut g = ArgSpec::opt("gformat", None, Some("gformat"));
+                        g.global = true;
+                        g.parser = Vp::Pv(vec![PvSpec { name: format!("gfone{}", ci), ..Default::default() }, PvSpec { name: format!("gftwo{}", ci), ..Default::default() }]);
+                        c.args.push(g.clone());
+                        for sub in c.subs.iter_mut() {
+                            sub.args.push(g.clone());
+                        }
+                    }
                     root.subs.push(c);
                 }
                 let mut hs = CmdSpec::new("shidden");
